@@ -269,3 +269,32 @@ CHECKS["C20"] = {
     "note": "Hand-listed pair family; values sampled. Trusted: TLC, harness/cast_driver.cpp, vm backend (mask-based example "
             "translation, so a wrong example address is visible), g++ 12.",
 }
+
+CHECKS["C01"] = {
+    "category": "translation_validation",
+    "technique": "TLA+ type-discipline spec (Taint.tla): program space enumerated by TLC, every program compiled against "
+                 "the headers (verdict + type of the expression), Contract FormAllowed evaluated by TLC on every observation; "
+                 "closure lemma for chains",
+    "text": "The space forms x wrapper operands x right operands (about 9 000 programs in the quick tier, 16 000 in the "
+            "thorough tier: every operator, every conversion context, wrapper conversions, casts, named unwrappers, private "
+            "members) is defined in TLA+ and enumerated by TLC; each program is rendered as a function body against the real "
+            "headers and compiled (batches, accepted programs re-confirmed so that once-per-TU template diagnostics cannot "
+            "hide a rejection); TLC checks for every observation that a plain value of sandbox origin appears only after a "
+            "named unwrapper or the null test of a tainted pointer, that comparisons involving sandbox-memory data or hints "
+            "yield hints, and that hints are not accepted by verifiers; depth-k chains follow by the closure lemma.",
+    "note": "One compiler (g++ 12). Memory punning is outside the domain. Trusted: TLC, gen/taint_corpus.py (syntax "
+            "templates and diagnostic attribution), harness/taint_prelude.hpp.",
+}
+CHECKS["C02"] = {
+    "category": "translation_validation",
+    "technique": "TLA+ spec (Taint.tla enter/legal forms, Mem.EntryAllowed): entry shapes compiled against the headers under "
+                 "three sandbox ABIs; run-time entry points swept over every address class; TLC judges verdicts and events",
+    "text": "59 shapes by which a raw pointer, raw function pointer, array / std::array of raw pointers, wrapper of another "
+            "sandbox type, mismatching function-pointer type or ill-formed callback signature could enter a wrapper, a "
+            "sandbox call or a registration (on 32-bit-offset, 16-bit-offset and host-width integer pointer ABIs) must all be "
+            "rejected by the compiler, 23 permitted controls are recorded; assign_raw_pointer (tainted and tainted_volatile) "
+            "and UNSAFE_accept_pointer are called for every byte of the own region, its neighbours, two other live "
+            "sandboxes, stack/data/heap and null, and must accept exactly addresses inside that sandbox, storing the address "
+            "resp. its representation.",
+    "note": "Shape family is hand-listed. Trusted: TLC, gen/taint_corpus.py, harness/mem_driver.cpp, vm backend, g++ 12.",
+}
